@@ -989,6 +989,48 @@ struct Gen {
     return push_call(d);
   }
 
+  // exported floating-point kernels that no dispatch site selects, on operands for which every intermediate value is exactly
+  // representable ((K + f/16) with |K| < 2^15, at most 32 terms): whatever the order of the operations and whether or not
+  // they are fused, the exact result is the only correct answer, so the twins are compared for numerical equality
+  bool emit_exact_kernel_pair() {
+    Call c;
+    const int exact_pat = 100 + PAT_RANDOM;
+    if (r.chance(1, 2)) {
+      const bool two = r.chance(1, 2);
+      c.op = two ? OP_R4_2COLS_REF : OP_R4_1COL_REF;
+      const uint64_t nrows = r.chance(10, 100) ? 0 : (uint64_t)r.range(1, 32);
+      c.p[0] = nrows;
+      c.s[1] = new_raw(T_F64, (nrows + 1) * 8, true, 15, exact_pat, 0);
+      c.s[2] = new_raw(T_F64, (nrows + 1) * (two ? 16 : 8), true, 15, exact_pat, 0);
+      c.s[0] = new_raw(T_F64, two ? 16 : 8, false, 0);
+      if (!push_call(c)) return false;
+      Call d = c;
+      d.op = c.op + 1;
+      d.s[0] = new_raw(T_F64, two ? 16 : 8, false, 0);
+      d.repeat_of = (int)P.calls.size() - 1;
+      return push_call(d);
+    }
+    const uint64_t m = 1ull << r.range(3, 9);
+    c.op = OP_CPLX_ADDMUL_KREF;
+    c.tab = get_table(TB_CPLX_ADDMUL, m);
+    c.s[0] = new_raw(T_F64, 2 * m, true, 15, exact_pat, 0);
+    c.s[1] = new_raw(T_F64, 2 * m, true, 15, exact_pat, 0);
+    c.s[2] = new_raw(T_F64, 2 * m, true, 15, exact_pat, 0);
+    if (!push_call(c)) return false;
+    const int ref_idx = (int)P.calls.size() - 1;
+    for (int k = 1; k <= 2; ++k) {
+      Call d = c;
+      d.op = c.op + k;
+      Slot twin = P.slots[c.s[0]];  // the accumulator starts from the same contents
+      twin.reserve = 0;
+      twin.neighbor_of = -1;
+      d.s[0] = add_slot(twin);
+      d.repeat_of = ref_idx;
+      if (!push_call(d)) return false;
+    }
+    return true;
+  }
+
   bool emit_life_op() {
     Call c;
     if (cfg.large_world && !P.modules.empty()) {
@@ -1233,7 +1275,7 @@ struct Gen {
     int wk = cfg.kernel_pairs ? 8 : 0;
     int tot = wm + wt + ws + wq + wl + wr + wk;
     int v = (int)(x * (uint64_t)tot / 100);
-    if (v >= tot - wk) return r.chance(35, 100) ? emit_coeff_pair(true) : emit_q120_pair();
+    if (v >= tot - wk) return r.chance(25, 100) ? emit_exact_kernel_pair() : (r.chance(35, 100) ? emit_coeff_pair(true) : emit_q120_pair());
     if (v < wm) return emit_module_op((int)r.below(P.modules.size()));
     v -= wm;
     if (v < wt) return emit_table_op(false);
